@@ -57,6 +57,9 @@ AllItems ==
   \cup {Str("streamdict", sp[1], sp[2], s[1], s[2]) : sp \in StreamSpecs, s \in {<<5, 0>>, <<16, 1>>}}
   \cup {Stm("streamdata", "plain", sp[1], sp[2], sp[3], sp[4]) : sp \in StreamSpecs}
   \cup {Stm("streamdata", "plain", 5, 0, 77, "none")}
+  \* the size dimension (documents with dv = big / huge only)
+  \cup {Str("direct", 50, 0, l, 0) : l \in {65535, 65536, 65537, 150000}}
+  \cup {Stm("streamdata", "plain", 51, 0, 65537, "none"), Stm("streamdata", "plain", 52, 0, 150000, "none")}
   \cup {Stm("metadata", "Metadata", 15, 0, 106, "none")}
   \cup {[loc |-> "trailer", kind |-> "string", type |-> ty, n |-> 0, g |-> 0, len |-> 16, filt |-> "-", nest |-> 0] : ty \in {"note", "id", "encrypt"}}
   \cup {[loc |-> "encdict", kind |-> "string", type |-> "encrypt", n |-> EncId, g |-> 0, len |-> 32, filt |-> "-", nest |-> 0]}
@@ -79,6 +82,13 @@ DictTried == {"a", "b", "w"}
 LowDictCfg == {c \in Valid(MkDv(Algs({40, 128}), OnePerm, BothIds, {"table"}, {"direct", "indirect"}, {"emfalse", "emtrue", "cfnoise", "len40"})) :
                  c.V < 4 /\ (c.dv = "len40" => c.V = 1)}
 AllDictCfg == DictCfg \cup LowDictCfg
+\* "size": strings and streams of 65535 / 65536 / 65537 bytes (thorough: also 150000), RC4 and AES
+SizeAlgsQuick == {a \in Algs({128}) : (a.V = 2) \/ a.cfm = "AESV2"}
+SizeAlgsFull == {a \in Algs({40, 128}) : a.cfm \in {"none", "V2", "AESV2"} \/ (a.cfm = "AESV3" /\ a.R = 6)}
+SizeCfgQuick == {c \in Valid(MkDv(SizeAlgsQuick, OnePerm, {"present"}, {"table"}, {"direct"}, {"big"})) : c.em}
+SizeCfgFull == {c \in Valid(MkDv(SizeAlgsFull, OnePerm, {"present"}, {"table"}, {"direct"}, {"big", "huge"})) :
+                  c.em /\ (c.dv = "huge" => c.keylen \in {128, 256} /\ c.V # 1)}
+SizeTried == {"a"}
 \* "content": every configuration x ID x physical form x Encrypt placement x every item location, both passwords
 AllForms == {"table", "xrefstm", "hybrid", "xrefstmw0", "xrefstm0w"}     \* /W [1 n 0] and /W [0 n 2] cross-reference streams
 ContentQuick == Valid(Mk(Algs(KeyLensQuick), OnePerm, {"present"}, AllForms, {"direct", "indirect"}))
